@@ -175,19 +175,25 @@ func TestVerifC12MTCPSequences(t *testing.T) {
 }
 
 type c12Cut struct {
-	Before int `json:"bundles_before_cut"`
-	Pay    int `json:"pay"`
+	Before   int  `json:"bundles_before_cut"`
+	Pay      int  `json:"pay"`
+	Graceful bool `json:"graceful"`    // the peer closes in an orderly way (FIN) instead of resetting: a first write still succeeds locally
+	Closed   bool `json:"then_closed"` // afterwards the client is closed (what the CLA manager does on PeerDisappeared) and one more Send is made
 }
 
 func TestVerifC12MTCPCut(t *testing.T) {
 	log.SetOutput(io.Discard)
 	u := vk.Unit{Property: "C12", Name: "c12.mtcp-cut",
-		Rule: "fault enumeration: a scripted raw TCP peer accepts the MTCP client, reads k = 0..5 bundles and then resets the connection (SO_LINGER 0); after the reset has been observed (50 ms settle) the next Send must return an error and a PeerDisappeared status must be emitted; payload sizes 10 and 70000; every case non-trivial; distinct by (k, payload)"}
+		Rule: "fault enumeration: a scripted raw TCP peer accepts the MTCP client, reads k = 0..5 bundles and then resets the connection (SO_LINGER 0) or closes it in an orderly way and stops listening; optionally the client is closed afterwards and one more Send is made (it must return an error, not panic); after the reset has been observed (50 ms settle) the next Send must return an error and a PeerDisappeared status must be emitted; payload sizes 10 and 70000; every case non-trivial; distinct by (k, payload)"}
 	vk.Enumerate(t, u, true, func(yield func(c12Cut) bool) {
 		for k := 0; k <= 5; k++ {
 			for _, p := range []int{10, 70000} {
-				if !yield(c12Cut{k, p}) {
-					return
+				for _, g := range []bool{false, true} {
+					for _, cl := range []bool{false, true} {
+						if !yield(c12Cut{k, p, g, cl}) {
+							return
+						}
+					}
 				}
 			}
 		}
@@ -233,8 +239,13 @@ func TestVerifC12MTCPCut(t *testing.T) {
 			}
 		}
 		time.Sleep(20 * time.Millisecond)
-		_ = conn.(*net.TCPConn).SetLinger(0)
-		_ = conn.Close() // RST
+		if cs.Graceful {
+			_ = ln.Close() // the peer is gone for good
+			_ = conn.Close() // FIN
+		} else {
+			_ = conn.(*net.TCPConn).SetLinger(0)
+			_ = conn.Close() // RST
+		}
 		<-readDone
 		time.Sleep(50 * time.Millisecond)
 		b, _, _ := vfBundle(cs.Pay, 99)
@@ -243,7 +254,21 @@ func TestVerifC12MTCPCut(t *testing.T) {
 		_ = client.Close()
 		<-cliDone
 		if serr == nil {
-			c.Failf("c12.mtcp-broken-success", "connection was reset by the peer after %d bundles; the next Send (payload %d) returns nil", cs.Before, cs.Pay)
+			c.Failf("c12.mtcp-broken-success", "connection was closed by the peer (graceful: %v) after %d bundles; the next Send (payload %d) returns nil", cs.Graceful, cs.Before, cs.Pay)
+		}
+		if cs.Closed {
+			// a Send that arrives after the manager closed the client (or while it does): an error, not a crash
+			func() {
+				defer func() {
+					if r := recover(); r != nil {
+						c.Failf("c12.mtcp-send-panics", "Send on a closed client panics instead of returning an error: %v", r)
+					}
+				}()
+				b2, _, _ := vfBundle(cs.Pay, 100)
+				if err := client.Send(b2); err == nil {
+					c.Failf("c12.mtcp-broken-success", "Send on a closed client (peer gone) returns nil")
+				}
+			}()
 		}
 		mu.Lock()
 		defer mu.Unlock()
